@@ -251,6 +251,27 @@ Proof.
   intros H. unfold sl_samples, sl_n. rewrite map_length, combine_length, <- H. apply Nat.min_id.
 Qed.
 
+(* average(op=None): the tree average of the samples is their ordered sum divided by n *)
+Lemma sl_average_ordered (s : slist T) :
+  let smp := sl_samples T tadd tsub s in
+  1 <= length smp ->
+  sl_average T tadd tsub tdivn s
+  = option_map (fun a => mf_divn T tdivn a (length smp)) (sum1 (mf_add T tadd) smp).
+Proof.
+  intros smp Hn. unfold sl_average, average_mf. fold smp.
+  rewrite (tree_sum_assoc (Model.mf T) (mf_add T tadd) mf_add_assoc) by exact Hn.
+  destruct (sum1 (mf_add T tadd) _); reflexivity.
+Qed.
+
+(* at(mean) keeps the number of samples; the sample list has n_samples items *)
+Lemma sl_at_count (s : slist T) (p : mf) :
+  sl_n T (sl_at T s p) = sl_n T s /\
+  (length (sl_res s) = length (sl_neg s) ->
+   length (sl_samples T tadd tsub (sl_at T s p)) = sl_n T s).
+Proof.
+  split; [reflexivity|]. intros H. exact (sl_samples_length (sl_at T s p) H).
+Qed.
+
 Lemma kl_value_mean (e : kl) :
   let smp := sl_samples T tadd tsub (kl_sl e) in
   1 <= length smp ->
